@@ -553,6 +553,14 @@ Definition params_ok (P : lparams) : bool :=
   snap_ok (p_snap P) && reserve_ok (p_reserve P) &&
   keys_total (p_by_layer P) && keys_total (p_by_ncrit P).
 
+(** byLayer sorts by layer first: then SortedNodes (TopoSort) is a
+    topological order *)
+Definition layer_first (ks : cmp_keys) : bool :=
+  match ks with
+  | (KLayer, true) :: _ => true
+  | _ => false
+  end.
+
 (** * graph.go Reverse *)
 
 Definition rev_graph (sh : N -> list name -> list name) (g : graph) : graph :=
